@@ -119,14 +119,20 @@ func scenarioC01(r *Run) {
 
 	faulty := false
 	pol := &NetPolicy{ChunkBias: c.Pick(3, "chunk-bias")}
-	// Benign datagram faults only where the carrier is specified to mask them
-	// (KCP). The DNS tunnel's behaviour under loss/duplication is C07's subject;
-	// C01 judges fidelity of DNS worlds on a loss-free path.
+	// Benign datagram faults only where the carrier is specified to mask them: KCP, and (isolated
+	// faults only) the DNS tunnel over UDP, whose behaviour under heavier loss is C07's subject.
 	if CarrierIsKCP(carrier) && c.Chance(1, 2, "benign-faults") {
 		faulty = true
 		pol.Reorder = true
 		pol.LossBudget = c.Pick(6, "loss-budget")
 		pol.DupBudget = c.Pick(6, "dup-budget")
+	}
+	if carrier == "dns+udp" && c.Chance(1, 2, "benign-faults") {
+		// isolated datagram faults, which the tunnel's retransmission is specified to absorb (C07)
+		faulty = true
+		pol.LossBudget = c.Pick(4, "loss-budget")
+		pol.DupBudget = c.Pick(3, "dup-budget")
+		pol.MinGap = 10
 	}
 	r.Info["carrier"] = carrier
 	r.Info["listener"] = lkind
